@@ -1,6 +1,7 @@
 import AsyncsshModel.Lemmas.LifecycleConn
 import AsyncsshModel.Lemmas.LifecycleDrain
 import AsyncsshModel.Lemmas.LifecycleHandshake
+import AsyncsshModel.Lemmas.LifecycleFlow
 import AsyncsshModel.Lemmas.LifecycleWaiters
 /-
   C09 — Everything terminates: no hung waiter, one orderly close.
@@ -296,13 +297,15 @@ theorem close_handshake_mu_le (h : HS) :
 /-- the bound, concretely: an established quiet channel on which one side calls `close()` needs at most 5 more
     steps (CLOSE delivered, CLOSE reply delivered, two cleanups — 4 happen), for every window size -/
 theorem close_handshake_bound_example (w : Nat) : ((HS.init w).step (.app true .close)).mu = 5 := by
-  simp [HS.init, HS.step, HS.enabled, HS.put, appOp, close, flushSendBuf, flushSendTail, pauseResumeWriting, closeSend,
+  simp [HS.init, HS.step, HS.enabled, HS.put, appOp, close, flushSendBuf, flushSendTail, closeSendEof, pauseResumeWriting, closeSend,
     discardRecv, R.andThen, R.ok, R.pre, sendPkt, sentMsgs, schedCount, HS.mu, pot, phiS, phiR, wMsgs, wMsg]
 
 /-- **close_handshake_terminates (terminal state).**  After ANY interleaving of application calls, deliveries and
-    cleanups: if nothing is in flight or scheduled any more, at least one side has sent its CLOSE, and neither
-    side sits on undelivered data (a reader that paused and never resumes, or a sender blocked on the window, is
-    the application's / flow control's business — C08), then BOTH ends are `closed`/`closed`, both `_cleanup`s have
+    cleanups: if nothing is in flight or scheduled any more, **at least one side has SENT its CLOSE**
+    (`a.sendSt = closed ∨ b.sendSt = closed` — a hypothesis, not a consequence of `close()` having been called: a
+    `close()` whose data is still waiting for window leaves `close_pending`; that case is
+    `close_handshake_no_mutual_deadlock` below), and neither side sits on undelivered data (a reader that paused and
+    never resumes is the application's business), then BOTH ends are `closed`/`closed`, both `_cleanup`s have
     run: sessions told, channels unregistered, `_close_event`s set. -/
 theorem close_handshake_quiescent_closed (w : Nat) (evs : List HEv) :
     let h := (HS.init w).run evs
@@ -361,8 +364,10 @@ def CleanedUp (c : Chan) : Prop :=
     whose two directions are open and which satisfy the structural invariant `CInv` — established, or still in the
     start-up phase: `_recv_paused = 'starting'`, `create()` suspended on an unanswered pty / exec / shell / subsystem
     request (`reqWaiter`, `stage`), a server channel on which no session has been started.  Let the two
-    applications and the network do anything (`evs`: write, EOF, close, abort, pause, resume, exit on either side,
-    deliveries, scheduled `_cleanup`s).  Once the queues have drained, if a CLOSE has been sent by either side and no
+    applications and the network do anything (`evs`: write, EOF, close, abort, pause, resume, exit, write-buffer limits
+    and drain on either side, deliveries, scheduled `_cleanup`s).  Once the queues have drained, if a CLOSE has been
+    SENT by either side (`sendSt = closed`: an explicit hypothesis — `close()` with data still waiting for window
+    leaves `close_pending`, see `mutual_close_deadlock_witness` for what that meant before the repair) and no
     side sits on undelivered data, then both ends are `closed`/`closed` and for BOTH channel objects `_cleanup` has
     done all it owes: the session got its final `connection_lost` and is released, the channel is unregistered,
     `_close_event` is set, no open / request waiter is left, nobody is blocked in `wait_closed()`, and a `create()`
@@ -461,6 +466,154 @@ theorem startup_data_then_close_hang_witness :
     dataThenCloseInStartup.a.reqWaiter = true ∧ dataThenCloseInStartup.a.reg = true ∧
     dataThenCloseInStartup.a.session = true ∧ dataThenCloseInStartup.b.reg = false ∧
     dataThenCloseInStartup.b.trace = [.made, .lost .clean] := by
+  decide +kernel
+
+/-! ### flow control at the end of a channel's life (audit findings 1 and 3) -/
+
+/-- the model describes the code that exists: `_process_close` looks at the water marks again after `_close_send()`
+    (regenerated from asyncssh/channel.py on every run; false for a tree without the repair) -/
+theorem peer_close_resumes_writer_in_code : Gen.C09.closeResumesWriting = true := by decide
+
+/-- the model describes the code that exists: data dropped after the local close (`_accept_data`) and undelivered
+    data thrown away by `close()` / `abort()` (`_discard_recv`) are credited with a WINDOW_ADJUST -/
+theorem dropped_data_credited_in_code :
+    Gen.C09.dropCreditsWindow = true ∧ Gen.C09.discardCreditsWindow = true := by decide
+
+/-- **waiters_resolved (drain; one call).**  Whenever the peer's CLOSE is processed by a channel object whose
+    session is attached — whatever else its state: reading paused with ANY amount of undelivered data (so that
+    `_cleanup`, and with it `connection_lost`, has to wait for the application to read), any amount of unsent data,
+    any water marks — afterwards the session is not paused for writing and NOBODY is blocked in `drain()`: everyone
+    who was has been released (`drainDone` grew by `drainPending`). -/
+theorem peer_close_releases_writer (c : Chan) (hs : c.session = true) (hl : recvLive c.recvSt = true)
+    (hd : c.sendPaused = false → c.drainPending = 0) :
+    (processClose c).c.sendPaused = false ∧ (processClose c).c.drainPending = 0 ∧
+    (processClose c).c.drainDone = c.drainDone + c.drainPending := by
+  obtain ⟨e0, e1, e2, e3, e4, e5⟩ := closeSendResume_writer c hs hd
+  unfold processClose
+  rw [if_neg (by simp [hl])]
+  generalize (closeSend c).andThen pauseResumeWriting = r at e0 e1 e2 e3 e4 e5
+  rw [(andThen_of_noerr _ _ e0).1]
+  obtain ⟨k1, k2, k3, _, _⟩ := flushRecvBuf_wkeep
+    { r.c with recvEofPending := decide (r.c.recvSt = .eofPending), recvSt := .closePending } e4
+  refine ⟨k1.trans e1, k2.trans e2, ?_⟩
+  rw [k3]
+  show r.c.drainDone = _
+  omega
+
+/-- **waiters_resolved (drain; every interleaving, connection up).**  After ANY interleaving of application calls
+    (write, EOF, close, abort, pause / resume reading, exit, `set_write_buffer_limits`, `drain()`), deliveries and
+    cleanups on an established channel: an endpoint that has processed its peer's CLOSE (`_recv_state` is
+    `close_pending` — possibly for ever, while the application does not read — or `closed`) is not paused for
+    writing and has nobody blocked in `drain()`. -/
+theorem writer_released_once_peer_closed (w : Nat) (evs : List HEv) :
+    let h := (HS.init w).run evs
+    ((h.a.recvSt = .closePending ∨ h.a.recvSt = .closed) → h.a.sendPaused = false ∧ h.a.drainPending = 0) ∧
+    ((h.b.recvSt = .closePending ∨ h.b.recvSt = .closed) → h.b.sendPaused = false ∧ h.b.drainPending = 0) := by
+  intro h
+  obtain ⟨ia, ib⟩ := wi_init w
+  obtain ⟨ha, hb⟩ := wi_run evs _ (hinv_init w) ia ib
+  exact ⟨fun x => ⟨ha.w2 x, ha.w1 (ha.w2 x)⟩, fun x => ⟨hb.w2 x, hb.w1 (hb.w2 x)⟩⟩
+
+/-- side `a` (window 2, write-buffer limits 1/0) pauses reading, receives one byte it does not read, writes five
+    bytes (two fit the window, three stay buffered: `pause_writing`), waits in `drain()`; side `b` closes -/
+def drainBehindPeerClose : List HEv :=
+  [.app true (.limits 1 0), .app true .pause, .app false .pause, .app false .write, .deliver false,
+   .app true .write, .app true .write, .app true .write, .app true .write, .app true .write, .app true .drain,
+   .deliver true, .deliver true, .app false .close, .deliver false, .deliver true, .cleanup false]
+
+/-- non-vacuity: in that run `a` is left with `close_pending` and one undelivered byte, no `_cleanup` scheduled — and
+    its writer has been resumed and released -/
+theorem drain_behind_peer_close_example :
+    let h := (HS.init 2).run drainBehindPeerClose
+    h.ab = [] ∧ h.ba = [] ∧ h.ca = 0 ∧ h.cb = 0 ∧ h.err = false ∧ h.a.recvSt = .closePending ∧ h.a.recvBuf = 1 ∧
+    h.a.sendPaused = false ∧ h.a.drainPending = 0 ∧ h.a.drainDone = 1 ∧
+    h.a.trace = [.made, .pauseW, .resumeW] := by
+  decide +kernel
+
+/-- **before the repair (`processClosePreFix`) the same history left the writer blocked for ever**: everything is
+    drained, `a` has sent its CLOSE and discarded its unsent data, `connection_lost` cannot come before the
+    application reads — which it does not, it waits in `drain()`.  (Replayed on the real code by the oracle:
+    signatures `drain-never-completes:peer-closed-with-unread-data`, `drain-never-completes:peer-closed:*`.) -/
+theorem drain_behind_peer_close_hang_witness :
+    let h := (HS.init 2).runPreFix drainBehindPeerClose
+    h.ab = [] ∧ h.ba = [] ∧ h.ca = 0 ∧ h.cb = 0 ∧ h.err = false ∧ h.a.sendSt = .closed ∧ h.a.sendBuf = 0 ∧
+    h.a.recvSt = .closePending ∧ h.a.recvBuf = 1 ∧ h.a.sendPaused = true ∧ h.a.drainPending = 1 ∧
+    h.a.trace = [.made, .pauseW] := by
+  decide +kernel
+
+/-- **close_handshake_terminates without "a CLOSE has been sent" (no mutual-close deadlock).**  For every window
+    `w ≥ 1` and after ANY interleaving of application calls, deliveries and cleanups on an established channel during
+    which no protocol error was raised: if nothing is in flight or scheduled any more, at least one application has
+    CALLED `close()` / `abort()` (a send state `close_pending` or `closed` — the CLOSE itself need not have got out)
+    and neither side sits on undelivered data, then BOTH ends are `closed`/`closed` and both `_cleanup`s have run.
+    In particular a `close()` can not stay `close_pending` for ever: by the window ledger (`FInv`: sender's window +
+    DATA in flight + undelivered data + credit in flight = receiver's window, kept exact because data dropped after the
+    local close and data discarded by `close()` are credited) unsent data at rest means the peer holds undelivered
+    data, which is excluded, or has sent its CLOSE, which discards the unsent data.  Before the repair this was false:
+    `mutual_close_deadlock_witness`. -/
+theorem close_handshake_no_mutual_deadlock (w : Nat) (hw : 1 ≤ w) (evs : List HEv) :
+    let h := (HS.init w).run evs
+    h.quiescent → h.err = false →
+    (h.a.sendSt = .closePending ∨ h.a.sendSt = .closed ∨ h.b.sendSt = .closePending ∨ h.b.sendSt = .closed) →
+    h.a.recvBuf = 0 → h.b.recvBuf = 0 →
+    h.a.sendSt = .closed ∧ h.a.recvSt = .closed ∧ h.b.sendSt = .closed ∧ h.b.recvSt = .closed ∧
+    cleaned h.a ∧ cleaned h.b := by
+  intro h hq he hreq hra hrb
+  have hf : FInv h := finv_run evs _ (hinv_init w) (finv_init w hw)
+  obtain ⟨q1, q2, q3, q4⟩ := hq
+  -- a close that is still pending would have to wait on a window the ledger shows to be open
+  have stuck : ∀ (x y : Chan), NInv x → NInv y → x.sendSt = .closePending → y.recvBuf = 0 →
+      (y.sendSt ≠ .closed → x.sendWin + 0 + y.recvBuf + 0 = y.recvWin) → y.sendSt = .closed := by
+    intro x y nx ny hcp hb led
+    cases hy : y.sendSt with
+    | closed => rfl
+    | _ =>
+      exfalso
+      have := led (by rw [hy]; simp)
+      have h5 := nx.n5 hcp
+      have h4 := nx.n4
+      have h2 := ny.n2.1
+      omega
+  have lab := hf.lab he
+  have lba := hf.lba he
+  rw [q1, q2] at lab lba
+  simp only [dataCnt, adjSum] at lab lba
+  have key : h.a.sendSt = .closed ∨ h.b.sendSt = .closed := by
+    rcases hreq with x | x | x | x
+    · exact Or.inr (stuck h.a h.b hf.na hf.nb x hrb lab)
+    · exact Or.inl x
+    · exact Or.inl (stuck h.b h.a hf.nb hf.na x hra lba)
+    · exact Or.inr x
+  exact close_handshake_quiescent_closed w evs ⟨q1, q2, q3, q4⟩ key hra hrb
+
+/-- both applications write one byte more than the peer's window and close before anything is delivered; then
+    everything in flight is delivered -/
+def bothClose (w : Nat) : List HEv :=
+  let wr (a : Bool) := List.replicate (w + 1) (HEv.app a .write)
+  wr true ++ [.app true .close] ++ wr false ++ [.app false .close] ++
+    List.replicate (2 * w + 4) (.deliver true) ++ List.replicate (2 * w + 4) (.deliver false) ++
+    List.replicate (2 * w + 4) (.deliver true) ++ List.replicate (2 * w + 4) (.deliver false) ++
+    [.cleanup true, .cleanup false]
+
+/-- non-vacuity for the mutual close: with the data that arrives after `close()` credited, both CLOSEs get out and
+    both ends are cleaned up -/
+theorem mutual_close_example :
+    let h := (HS.init 4).run (bothClose 4)
+    h.ab = [] ∧ h.ba = [] ∧ h.ca = 0 ∧ h.cb = 0 ∧ h.err = false ∧ h.a.sendSt = .closed ∧ h.a.recvSt = .closed ∧
+    h.b.sendSt = .closed ∧ h.b.recvSt = .closed ∧ h.a.reg = false ∧ h.b.reg = false ∧
+    h.a.trace = [.made, .lost .clean] ∧ h.b.trace = [.made, .lost .clean] := by
+  decide +kernel
+
+/-- **before the repair the statement of `close_handshake_quiescent_closed` WITHOUT the hypothesis "a CLOSE has been
+    sent" was false** (and `wait_closed()` hung on both ends of the real code): both applications have called
+    `close()`, everything is drained, nobody sits on undelivered data — and both ends are stuck in `close_pending`
+    with one unsent byte and a send window of zero, neither `_cleanup` has run.  (`acceptDataPreFix` dropped the
+    data without giving the window back.  Oracle signatures `both-closed-channel-never-cleaned-up:*`.) -/
+theorem mutual_close_deadlock_witness :
+    let h := (HS.init 4).runPreFix (bothClose 4)
+    h.ab = [] ∧ h.ba = [] ∧ h.ca = 0 ∧ h.cb = 0 ∧ h.err = false ∧ h.a.recvBuf = 0 ∧ h.b.recvBuf = 0 ∧
+    h.a.sendSt = .closePending ∧ h.a.sendBuf = 1 ∧ h.a.sendWin = 0 ∧ h.a.closeEvent = false ∧
+    h.b.sendSt = .closePending ∧ h.b.sendBuf = 1 ∧ h.b.sendWin = 0 ∧ h.b.closeEvent = false := by
   decide +kernel
 
 /-! ### waiters above the session callbacks (`Model/LifecycleWaiters.lean`) -/
